@@ -144,15 +144,28 @@ class Program:
                 self.modules[name] = mod
                 self.by_rel[rel] = mod
         if self.normalise:
-            trees = [m.tree for m in self.modules.values() if m.pyx is None]
+            trees = [m.tree for m in self.modules.values()]
             pure = norm.pure_method_names(trees)
             sigs = norm.signatures(trees)
             for rel, mod in self.by_rel.items():
-                if mod.pyx is None:
+                if True:
                     try:
                         self.norm_info[rel] = norm.normalise(rel, mod.tree, self.frozen, pure, sigs)
                     except RecursionError as e:  # pragma: no cover
                         raise AnalysisError("normalisation of %s failed: %s" % (rel, e))
+                    if mod.pyx is not None:
+                        # local renames done by the normal form are mirrored in the side table of declared C locals
+                        import re as _re
+
+                        for entry in self.norm_info[rel].get("guided", []):
+                            q = entry.split("[", 1)[0]
+                            finfo = mod.pyx.functions.get(q)
+                            if finfo is None:
+                                continue
+                            for new_nm, old_nm in _re.findall(r"rename\('([^']+)', '([^']+)'\)", entry):
+                                loc = finfo.get("locals", {})
+                                if new_nm in loc and old_nm not in loc:
+                                    loc[old_nm] = loc.pop(new_nm)
         for mod in self.modules.values():
             assign_order(mod.tree)
         for mod in self.modules.values():
